@@ -163,7 +163,7 @@ impl Check for C16 {
     }
     fn cases(&self, tier: Tier) -> u32 {
         match tier {
-            Tier::Quick => 2500,
+            Tier::Quick => 6000,
             Tier::Thorough => 60_000,
         }
     }
